@@ -59,6 +59,16 @@ check("C03", "exploration",
       "deterministic simulation with fault injection: seeded schedule/fault search, per-reconcile oracle over the recorded write log and function-call history",
       "§7 C03")
 
+check("C06", "exploration",
+      "Seeded deterministic simulation of the real offered (claim XRD) controller, the real claim reconciler it builds with either the client-side or the server-side-apply syncer (drawn per run), and the real XR reconciler, "
+      "with the claim controller reading claims through a cache view that lags the store by a tape-chosen number of writes. Claims are created, edited, deleted and re-created; a user points a claim at another claim's XR; "
+      "every API call is a fault point (error before, reply lost after the effect, conflict, crash before/after) and the Kubernetes garbage collector is an interleaved actor. "
+      "Judged at every request that reaches the store: an XR create by a claim reconcile happens only when the STORED claim already references that name; one claim incarnation (UID) never causes two XR names to be created; "
+      "a claim reconcile never issues a write or delete on an XR whose claimRef names another claim. After every step: at most one live XR references a claim.",
+      TB + " XR reads of the claim controller are fresh (the property names stale reads of the claim only). Name-collision hijacks need a random-suffix collision and are not generated.",
+      "deterministic simulation with fault injection: seeded schedule/fault/crash/stale-read search, invariants at every committed request and every step",
+      "§7 C06")
+
 def main():
     props = [json.loads(l)["id"] for l in open(os.path.join(V, "properties.jsonl"))]
     na = []
